@@ -157,6 +157,7 @@ type summaryLine struct {
 	Panics         int    `json:"panics"`
 	Anomalies      int    `json:"anomalies"`
 	PairsBothSeen  int    `json:"pairs_with_accept_and_reject"`
+	MultiCases     int    `json:"multi_file_cases"`
 }
 
 var enc = json.NewEncoder(os.Stdout)
@@ -469,6 +470,12 @@ func main() {
 			}
 		}
 	}
+	// several rules files in one engine (equal-named helpers per file)
+	mc, mb := runMulti(*seed, *tmp, *brief)
+	sum.DirectCases += mc
+	sum.DirectMismatch += mb
+	sum.MultiCases = mc
+
 	for _, p := range rs.pairs {
 		if pairAcc[p] > 0 && pairRej[p] > 0 {
 			sum.PairsBothSeen++
